@@ -21,7 +21,7 @@ RULE = (
     "those of its own file; /metadata children == the records present; root attrs == volume "
     "attrs + reference link; every per-line variable is a coordinate and no 'coordinates' "
     "attribute is left anywhere. Non-trivial: >= 2 images."
-    " Stage 'in-place-pairs': two products with the same file names at the same root, one after the other, both judged."
+    " Stage 'in-place-pairs': two products with the same file names at the same root, one after the other, both judged. In via-cache cases the tree returned by the open that wrote the caches is judged as well as the tree read back. A quarter of the other cases inject a transient I/O error into the open (the 1st..3rd read of the summary, volume directory, leader, trailer or one image fails once with OSError): the open may raise it, but a tree that is returned is the complete tree."
 )
 ASSUMPTIONS = ["frozen layout / exposure tables; image order = numeric order of the ProductFileName keys"]
 BUDGET = {"quick": 120, "thorough": 1500}
@@ -51,6 +51,9 @@ def cases(draw):
         # user cache dir / next to the image / none (None = all in the user cache dir)
         "cache_layout": draw(st.one_of(st.none(), st.integers(0, 10**6))),
         "vseed": draw(st.integers(0, 2**32 - 1)),
+        # a transient I/O error: the n-th read of one component file fails once with OSError
+        # (file chosen by index into [summary, VOL, LED, TRL, images...]); None = no fault
+        "io_error": draw(st.one_of(st.none(), st.none(), st.none(), st.tuples(st.sampled_from([0, 1, 1, 2, 2, 3, 4, 5, 6, 7]), st.sampled_from([1, 1, 2, 3])))),
     }
 
 
@@ -69,6 +72,8 @@ def classify(case):
         labels.append("shuffled-summary")
     if case.get("via_cache"):
         labels.append("via-cache" if case.get("cache_layout") is None else "via-partial-cache")
+    elif case.get("io_error"):
+        labels.append("transient-read-error")
     return n >= 2, labels
 
 
@@ -109,6 +114,38 @@ def judge_flat(flat, spec, info):
     return out
 
 
+def run_io_error(case, spec, files, info):
+    """one read of one component file fails once with OSError: the open may raise that OSError,
+    but a tree that is returned is the complete tree of the product (nothing silently left out)"""
+    from vf import vtrace
+
+    names = info["names"]
+    candidates = ["summary.txt", names["volume_directory"], names["sar_leader"], names.get("sar_trailer")] + list(names["sar_imagery"])
+    candidates = [c for c in candidates if c]
+    which, nth = case["io_error"]
+    target = candidates[which] if which < 4 else candidates[4 + (which - 4) % (len(candidates) - 4)]
+    out = []
+    with harness.Materialised(files, "vtrace") as prod:
+        vtrace.STORE.fail_path, vtrace.STORE.fail_reads, vtrace.STORE.fail_skip = target, 1, nth - 1
+        try:
+            tree, err = harness.guard(harness.open_tree, prod.url, use_cache=False, records_per_chunk=case["rpc"])
+        finally:
+            # the fault belongs to the open: the loads that follow read undisturbed
+            consumed = vtrace.STORE.fail_reads == 0
+            vtrace.STORE.fail_path, vtrace.STORE.fail_reads, vtrace.STORE.fail_skip = None, 0, 0
+        flat = None
+        if err is None:
+            flat, err = harness.guard(harness.flatten, tree)
+        if err is not None:
+            if not isinstance(err, OSError) and "injected transient read error" not in harness.exc_text(err):
+                out.append(harness.disc("exception", f"open_alos2 while a read of {target.split('-')[0]} fails", "OSError (or the complete tree)", harness.exc_text(err)))
+            return out
+        for d in judge_flat(flat, spec, info):
+            d.setdefault("context", {})["during"] = f"an open in which a read of {target.split('-')[0]} " + ("failed with OSError" if consumed else "was to fail (no such read happened)")
+            out.append(d)
+    return out
+
+
 def run_case(case):
     spec = common.spec_from(case)
     if case["shuffle_summary"] is not None:
@@ -120,6 +157,8 @@ def run_case(case):
     out = []
     via_cache = case.get("via_cache", False)
     creating_flat = None
+    if case.get("io_error") and not via_cache:
+        return run_io_error(case, spec, files, info)
     with harness.Materialised(files, "local" if via_cache else "memory") as prod:
         try:
             if via_cache:
